@@ -18,11 +18,24 @@ def NoBufZero (c v : Value R) : Prop :=
   | .buf _, .int ch => Spec.lowByte ch ≠ 0
   | _, _ => True
 
+/-- the code BEFORE the repair of finding buf-store-zero (`bufStoreZero := true`) agreed outside a zero byte into a buffer -/
 theorem lvset_agrees_partial (F : FloatOps R) (rev : Bool) (c i v : Value R) (hz : NoBufZero c v) :
-    LpcOps.lvSet F Quirks.real rev c i v = Spec.lvSet F rev c i v := by
+    LpcOps.lvSet F { Quirks.real with bufStoreZero := true } rev c i v = Spec.lvSet F rev c i v := by
   cases rev <;> cases c <;> cases i <;> cases v <;>
     simp only [LpcOps.lvSet, Spec.lvSet, Quirks.real, Bool.true_and, Bool.false_eq_true, if_false, if_true, ↓reduceIte] <;>
     (try rfl) <;> (try simp only [NoBufZero] at hz) <;> (repeat' split) <;> first | rfl | (exfalso; omega) | simp_all
+
+/-- FULL statement (finding buf-store-zero repaired): F_ASSIGN / F_VOID_ASSIGN through an index lvalue of the code that
+    exists is the reference store for every container, index and value - a zero byte into a buffer included -/
+theorem lvset_agrees (F : FloatOps R) (rev : Bool) (c i v : Value R) :
+    LpcOps.lvSet F Quirks.real rev c i v = Spec.lvSet F rev c i v := by
+  cases rev <;> cases c <;> cases i <;> cases v <;>
+    simp only [LpcOps.lvSet, Spec.lvSet, Quirks.real, Bool.false_and, Bool.false_eq_true, if_false, if_true, ↓reduceIte] <;>
+    (try rfl) <;> (repeat' split) <;> first | rfl | (exfalso; omega) | simp_all
+
+example : LpcOps.lvSet (R := Nat) ⟨(· + ·), (· - ·), (· * ·), (· / ·), id, fun a b => decide (a < b), fun a b => decide (a ≤ b),
+    fun a b => a == b, Int.toNat, Int.ofNat, fun _ => []⟩ Quirks.real false (.buf [65, 66]) (.int 1) (.int 256) = .ok (.buf [65, 0]) := by
+  rfl
 
 
 theorem take_drop_eq {α} (l : List α) (a a' n m : Nat) (ha : a = a')
@@ -58,21 +71,40 @@ theorem rangePos_str (old : Bool) (len : Int) (rev : Bool) (x : Int) :
   unfold Spec.rangePos
   cases rev <;> cases old <;> simp
 
-theorem range_agrees_repaired (fr tr : Bool) (c i j : Value R) (hc : SizeOk c) :
-    LpcOps.range Quirks.none Spec.oldRange fr tr c i j = Spec.range fr tr c i j := by
+/-! ### the `<` bound: `range_from_end ()` of operator.c, regenerated as `NV.Gen.C03.rangeFromEnd` -/
+
+theorem w64_eq_wrap (n : Int) : NV.Gen.C03.w64 n = wrap n := rfl
+
+/-- bridging lemma: for a length the driver can have and every int64 bound, the regenerated helper (every C operation
+    wrapping) computes `len - i` saturated at INT64_MAX - no C operation in it overflows -/
+theorem rangeFromEnd_spec {len i : Int} (h0 : 0 ≤ len) (h1 : len < 2 ^ 31) (hi : I64 i) :
+    NV.Gen.C03.rangeFromEnd len i = if len - i > 2 ^ 63 - 1 then 2 ^ 63 - 1 else len - i := by
+  unfold NV.Gen.C03.rangeFromEnd NV.Gen.C03.w64
+  unfold I64 at hi
+  split <;> split <;> omega
+
+/-- what the rest of f_range needs to know about a saturated position -/
+theorem rangeFromEnd_cases {len i : Int} (h0 : 0 ≤ len) (h1 : len < 2 ^ 31) (hi : I64 i) :
+    (NV.Gen.C03.rangeFromEnd len i = len - i ∧ len - i ≤ 2 ^ 63 - 1) ∨
+      (NV.Gen.C03.rangeFromEnd len i = 2 ^ 63 - 1 ∧ len - i > 2 ^ 63 - 1) := by
+  rw [rangeFromEnd_spec h0 h1 hi]; split <;> omega
+
+/-- f_range with exact (unbounded) `len - i` is the reference range -/
+theorem rangeWith_exact_agrees (fr tr : Bool) (c i j : Value R) (hc : SizeOk c) :
+    LpcOps.rangeWith (fun a b => a - b) false Spec.oldRange fr tr c i j = Spec.range fr tr c i j := by
   cases c <;> cases i <;> cases j <;> (try rfl)
   case str.int.int s i j =>
-    simp only [LpcOps.range, Spec.range, Quirks.none, Bool.false_eq_true, if_false, ↓reduceIte]
+    simp only [LpcOps.rangeWith, Spec.range, Bool.false_eq_true, if_false, ↓reduceIte]
     rw [rangePos_str, rangePos_str, cut_eq_slice]
   case buf.int.int b i j =>
-    simp only [LpcOps.range, Spec.range, Quirks.none, Bool.false_eq_true, if_false, ↓reduceIte]
+    simp only [LpcOps.rangeWith, Spec.range, Bool.false_eq_true, if_false, ↓reduceIte]
     rw [← cut_eq_slice]
     unfold Spec.rangePos
     generalize Spec.oldRange = old
     congr 3
     cases old <;> cases fr <;> simp <;> (repeat' split) <;> omega
   case arr.int.int l i j =>
-    simp only [LpcOps.range, Spec.range, Quirks.none, Bool.false_eq_true, if_false, ↓reduceIte]
+    simp only [LpcOps.rangeWith, Spec.range, Bool.false_eq_true, if_false, ↓reduceIte]
     simp only [SizeOk] at hc
     rw [wrap32_id (by (repeat' split) <;> omega) (by (repeat' split) <;> omega),
         wrap32_id (by (repeat' split) <;> omega) (by (repeat' split) <;> omega)]
@@ -81,42 +113,99 @@ theorem range_agrees_repaired (fr tr : Bool) (c i j : Value R) (hc : SizeOk c) :
     · simp [Spec.rangePos]
     · simp [Spec.rangePos]
 
-/-- operand region in which the two open findings on `<` range bounds (rev-range-wrap, str-range-rev-neg) do not
-    apply: `size - i` does not overflow int64 and, for strings, does not land before the start -/
-def RevOk (c : Value R) (rev : Bool) (x : Value R) : Prop :=
-  match c, rev, x with
-  | .str s, true, .int n => I64 ((s.length : Int) - n) ∧ 0 ≤ (s.length : Int) - n
-  | .buf b, true, .int n => I64 ((b.length : Int) - n)
-  | .arr l, true, .int n => I64 ((l.length : Int) - n)
-  | _, _, _ => True
+/-- `cut` does not see the saturation: a `from` at or beyond the end selects nothing, a `to` at or beyond the last
+    element selects up to the end -/
+theorem cut_sat {α} (l : List α) (f f' t t' : Int) (hl : (l.length : Int) < 2 ^ 31)
+    (hf : f' = f ∨ (f' = 2 ^ 63 - 1 ∧ f > 2 ^ 63 - 1)) (ht : t' = t ∨ (t' = 2 ^ 63 - 1 ∧ t > 2 ^ 63 - 1))
+    (hfm : f' ≤ 2 ^ 63 - 1) :
+    LpcOps.cut l f' t' = LpcOps.cut l f t := by
+  unfold LpcOps.cut
+  simp only
+  rcases hf with hf | ⟨hf, hf2⟩ <;> rcases ht with ht | ⟨ht, ht2⟩ <;> subst_vars
+  · rfl
+  · (repeat' split) <;> (try rfl) <;> (try (exfalso; omega))
+  · (repeat' split) <;> (try rfl) <;> (try (exfalso; omega))
+  · (repeat' split) <;> (try rfl) <;> (try (exfalso; omega))
 
-theorem range_quirks_irrelevant (old fr tr : Bool) (c i j : Value R) (hi : RevOk c fr i) (hj : RevOk c tr j) :
-    LpcOps.range Quirks.real old fr tr c i j = LpcOps.range Quirks.none old fr tr c i j := by
+theorem sliceArray_congr {α} (l : List α) {f f' t t' : Int} (hf : f' = f) (ht : t' = t) :
+    LpcOps.sliceArray l f' t' = LpcOps.sliceArray l f t := by rw [hf, ht]
+
+theorem rangeWith_sat_str (sr old fr tr : Bool) (s : List UInt8) (i j : Int) (hc : (s.length : Int) < 2 ^ 31)
+    (hi : I64 i) (hj : I64 j) :
+    LpcOps.rangeWith (R := R) NV.Gen.C03.rangeFromEnd sr old fr tr (.str s) (.int i) (.int j)
+      = LpcOps.rangeWith (fun a b => a - b) sr old fr tr (.str s) (.int i) (.int j) := by
+  have ci := rangeFromEnd_cases (Int.natCast_nonneg s.length) hc hi
+  have cj := rangeFromEnd_cases (Int.natCast_nonneg s.length) hc hj
+  unfold I64 at hi hj
+  simp only [LpcOps.rangeWith]
+  generalize NV.Gen.C03.rangeFromEnd (s.length : Int) i = pi at ci ⊢
+  generalize NV.Gen.C03.rangeFromEnd (s.length : Int) j = pj at cj ⊢
+  apply congrArg; apply congrArg
+  cases fr <;> cases tr <;> cases sr <;> cases old <;>
+    simp only [Bool.false_eq_true, ↓reduceIte, Bool.true_and, Bool.false_and] <;>
+    (try rfl) <;>
+    (apply cut_sat _ _ _ _ _ hc <;> (try simp only [decide_eq_true_eq]) <;> (repeat' split) <;> first | omega | simp)
+
+theorem rangeWith_sat_buf (sr old fr tr : Bool) (s : List UInt8) (i j : Int) (hc : (s.length : Int) < 2 ^ 31)
+    (hi : I64 i) (hj : I64 j) :
+    LpcOps.rangeWith (R := R) NV.Gen.C03.rangeFromEnd sr old fr tr (.buf s) (.int i) (.int j)
+      = LpcOps.rangeWith (fun a b => a - b) sr old fr tr (.buf s) (.int i) (.int j) := by
+  have ci := rangeFromEnd_cases (Int.natCast_nonneg s.length) hc hi
+  have cj := rangeFromEnd_cases (Int.natCast_nonneg s.length) hc hj
+  unfold I64 at hi hj
+  simp only [LpcOps.rangeWith]
+  generalize NV.Gen.C03.rangeFromEnd (s.length : Int) i = pi at ci ⊢
+  generalize NV.Gen.C03.rangeFromEnd (s.length : Int) j = pj at cj ⊢
+  apply congrArg; apply congrArg
+  cases fr <;> cases tr <;> cases old <;>
+    simp only [Bool.false_eq_true, ↓reduceIte, Bool.true_and, Bool.false_and] <;>
+    (try rfl) <;>
+    (apply cut_sat _ _ _ _ _ hc <;> (try simp only [decide_eq_true_eq]) <;> (repeat' split) <;> first | omega | simp)
+
+theorem rangeWith_sat_arr (sr old fr tr : Bool) (l : List (Value R)) (i j : Int) (hc : (l.length : Int) < 2 ^ 31)
+    (hi : I64 i) (hj : I64 j) :
+    LpcOps.rangeWith NV.Gen.C03.rangeFromEnd sr old fr tr (.arr l) (.int i) (.int j)
+      = LpcOps.rangeWith (fun a b => a - b) sr old fr tr (.arr l) (.int i) (.int j) := by
+  have ci := rangeFromEnd_cases (Int.natCast_nonneg l.length) hc hi
+  have cj := rangeFromEnd_cases (Int.natCast_nonneg l.length) hc hj
+  unfold I64 at hi hj
+  simp only [LpcOps.rangeWith]
+  generalize NV.Gen.C03.rangeFromEnd (l.length : Int) i = pi at ci ⊢
+  generalize NV.Gen.C03.rangeFromEnd (l.length : Int) j = pj at cj ⊢
+  apply congrArg; apply congrArg
+  cases fr <;> cases tr <;>
+    simp only [Bool.false_eq_true, if_false, if_true, ↓reduceIte] <;> (try rfl) <;>
+    (apply sliceArray_congr <;> (apply congrArg) <;> (repeat' split) <;> omega)
+
+/-- the saturating helper of the code and the exact subtraction give the same range for every container the driver can
+    hold and all int64 bounds -/
+theorem rangeWith_sat (sr old fr tr : Bool) (c i j : Value R) (hc : SizeOk c) (hi : VI64 i) (hj : VI64 j) :
+    LpcOps.rangeWith NV.Gen.C03.rangeFromEnd sr old fr tr c i j = LpcOps.rangeWith (fun a b => a - b) sr old fr tr c i j := by
   cases c <;> cases i <;> cases j <;> (try rfl)
-  case str.int.int s i j =>
-    cases fr <;> cases tr <;> simp only [RevOk] at hi hj <;>
-      simp only [LpcOps.range, Quirks.real, Quirks.none, Bool.false_eq_true, ↓reduceIte]
-    · have h : ¬ ((s.length : Int) - j < 0) := by omega
-      simp [wrap_id hj.1, h]
-    · have h : ¬ ((s.length : Int) - i < 0) := by omega
-      simp [wrap_id hi.1, h]
-    · have h : ¬ ((s.length : Int) - i < 0) := by omega
-      have h' : ¬ ((s.length : Int) - j < 0) := by omega
-      simp [wrap_id hi.1, wrap_id hj.1, h, h']
-  case buf.int.int b i j =>
-    cases fr <;> cases tr <;> simp only [RevOk] at hi hj <;>
-      simp only [LpcOps.range, Quirks.real, Quirks.none, Bool.false_eq_true, ↓reduceIte] <;>
-      simp [*, wrap_id]
-  case arr.int.int l i j =>
-    cases fr <;> cases tr <;> simp only [RevOk] at hi hj <;>
-      simp only [LpcOps.range, Quirks.real, Quirks.none, Bool.false_eq_true, ↓reduceIte] <;>
-      simp [*, wrap_id]
+  case str.int.int s i j => exact rangeWith_sat_str sr old fr tr s i j hc hi hj
+  case buf.int.int b i j => exact rangeWith_sat_buf sr old fr tr b i j hc hi hj
+  case arr.int.int l i j => exact rangeWith_sat_arr sr old fr tr l i j hc hi hj
 
-/-- f_range (all four `<` combinations) on strings, buffers and arrays returns the reference range for all
-    int64 bounds outside the region of the two open findings -/
-theorem range_agrees_partial (fr tr : Bool) (c i j : Value R) (hc : SizeOk c) (hi : RevOk c fr i) (hj : RevOk c tr j) :
+/-- FULL statement (finding rev-range-wrap repaired): f_range of the code that exists (all four `<` combinations) on
+    strings, buffers and arrays returns the reference range for ALL int64 bounds -/
+theorem range_agrees (fr tr : Bool) (c i j : Value R) (hc : SizeOk c) (hi : VI64 i) (hj : VI64 j) :
     LpcOps.range Quirks.real Spec.oldRange fr tr c i j = Spec.range fr tr c i j := by
-  rw [range_quirks_irrelevant _ fr tr c i j hi hj, range_agrees_repaired fr tr c i j hc]
+  have h : LpcOps.revSub Quirks.real = NV.Gen.C03.rangeFromEnd := by
+    funext a b; simp [LpcOps.revSub, Quirks.real]
+  unfold LpcOps.range
+  rw [h, show Quirks.real.strRangeRevNeg = false from rfl, rangeWith_sat _ _ _ _ _ _ _ hc hi hj,
+      rangeWith_exact_agrees _ _ _ _ _ hc]
+
+theorem range_agrees_repaired (fr tr : Bool) (c i j : Value R) (hc : SizeOk c) (hi : VI64 i) (hj : VI64 j) :
+    LpcOps.range Quirks.none Spec.oldRange fr tr c i j = Spec.range fr tr c i j := by
+  have h : LpcOps.revSub Quirks.none = NV.Gen.C03.rangeFromEnd := by
+    funext a b; simp [LpcOps.revSub, Quirks.none]
+  unfold LpcOps.range
+  rw [h, show Quirks.none.strRangeRevNeg = false from rfl, rangeWith_sat _ _ _ _ _ _ _ hc hi hj,
+      rangeWith_exact_agrees _ _ _ _ _ hc]
+
+example : LpcOps.range (R := Nat) Quirks.real true true false (.arr [.int 10]) (.int (-(2 ^ 63))) (.int 5) = .ok (.arr []) := by
+  simp [LpcOps.range, LpcOps.rangeWith, LpcOps.revSub, Quirks.real, NV.Gen.C03.rangeFromEnd, NV.Gen.C03.w64, LpcOps.sliceArray, wrap32]
 
 theorem drop_take_all {α} (l : List α) (a a' n : Nat) (ha : a = a') (h : l.length - a ≤ n) :
     l.drop a = (l.drop a').take n := by
@@ -152,20 +241,20 @@ theorem suffix_eq_slice_buf {α} (l : List α) (f : Int) :
     | (apply drop_take_all <;> omega)
     | (rw [List.drop_eq_nil_of_le (by omega)])
 
-/-- `c[i..]` / `c[<i..]` (f_extract_range) is the reference `c[i..<1]` on strings, buffers and arrays -/
-theorem extract_agrees_repaired (fr : Bool) (c i : Value R) (hc : SizeOk c) :
-    LpcOps.extract Quirks.none Spec.oldRange fr c i = Spec.extract fr c i := by
+/-- `c[i..]` / `c[<i..]` (f_extract_range) with exact `len - i` is the reference `c[i..<1]` -/
+theorem extractWith_exact_agrees (fr : Bool) (c i : Value R) (hc : SizeOk c) :
+    LpcOps.extractWith (fun a b => a - b) Spec.oldRange fr c i = Spec.extract fr c i := by
   cases c <;> cases i <;> (try rfl)
   case str.int s i =>
-    simp only [LpcOps.extract, Spec.extract, Spec.range, Quirks.none, Bool.false_eq_true, ↓reduceIte]
+    simp only [LpcOps.extractWith, Spec.extract, Spec.range, Bool.false_eq_true, ↓reduceIte]
     rw [old_clamp, rangePos_one _ _ (by omega), ← suffix_eq_slice]
     exact (apply_ite (fun x : List UInt8 => (Res.ok (Value.str x) : Res (Value R))) _ _ _).symm
   case buf.int b i =>
-    simp only [LpcOps.extract, Spec.extract, Spec.range, Quirks.none, Bool.false_eq_true, ↓reduceIte]
+    simp only [LpcOps.extractWith, Spec.extract, Spec.range, Bool.false_eq_true, ↓reduceIte]
     rw [old_clamp, rangePos_one _ _ (by omega)]
     exact congrArg _ (congrArg _ (suffix_eq_slice_buf b _))
   case arr.int l i =>
-    simp only [LpcOps.extract, Spec.extract, Spec.range, Quirks.none, Bool.false_eq_true, ↓reduceIte]
+    simp only [LpcOps.extractWith, Spec.extract, Spec.range, Bool.false_eq_true, ↓reduceIte]
     simp only [SizeOk] at hc
     rw [wrap32_id (by (repeat' split) <;> omega) (by (repeat' split) <;> omega),
         wrap32_id (by omega) (by omega)]
@@ -173,6 +262,54 @@ theorem extract_agrees_repaired (fr : Bool) (c i : Value R) (hc : SizeOk c) :
     apply sliceArray_eq_slice
     · simp [Spec.rangePos]
     · simp [Spec.rangePos]; (repeat' split) <;> omega
+
+theorem extractWith_sat (old fr : Bool) (c i : Value R) (hc : SizeOk c) (hi : VI64 i) :
+    LpcOps.extractWith NV.Gen.C03.rangeFromEnd old fr c i = LpcOps.extractWith (fun a b => a - b) old fr c i := by
+  cases c <;> cases i <;> (try rfl)
+  case str.int s i =>
+    simp only [SizeOk] at hc; simp only [VI64] at hi
+    have ci := rangeFromEnd_cases (Int.natCast_nonneg s.length) hc hi
+    unfold I64 at hi
+    simp only [LpcOps.extractWith]
+    generalize NV.Gen.C03.rangeFromEnd (s.length : Int) i = pi at ci ⊢
+    cases fr <;> cases old <;>
+      simp only [Bool.false_eq_true, if_false, if_true, ↓reduceIte] <;> (try rfl) <;>
+      ((repeat' split) <;> first | rfl | (exfalso; omega) | (congr 3; omega))
+  case buf.int b i =>
+    simp only [SizeOk] at hc; simp only [VI64] at hi
+    have ci := rangeFromEnd_cases (Int.natCast_nonneg b.length) hc hi
+    unfold I64 at hi
+    simp only [LpcOps.extractWith]
+    generalize NV.Gen.C03.rangeFromEnd (b.length : Int) i = pi at ci ⊢
+    apply congrArg; apply congrArg
+    cases fr <;> cases old <;>
+      simp only [Bool.false_eq_true, if_false, if_true, ↓reduceIte] <;> (try rfl) <;>
+      (congr 1; apply congrArg; (repeat' split) <;> omega)
+  case arr.int l i =>
+    simp only [SizeOk] at hc; simp only [VI64] at hi
+    have ci := rangeFromEnd_cases (Int.natCast_nonneg l.length) hc hi
+    unfold I64 at hi
+    simp only [LpcOps.extractWith]
+    generalize NV.Gen.C03.rangeFromEnd (l.length : Int) i = pi at ci ⊢
+    apply congrArg; apply congrArg
+    cases fr <;> simp only [Bool.false_eq_true, if_false, if_true, ↓reduceIte] <;> (try rfl) <;>
+      (apply sliceArray_congr _ _ rfl; apply congrArg; (repeat' split) <;> omega)
+
+/-- FULL statement (finding rev-range-wrap repaired): f_extract_range of the code that exists = reference `c[i..<1]`
+    for ALL int64 bounds -/
+theorem extract_agrees (fr : Bool) (c i : Value R) (hc : SizeOk c) (hi : VI64 i) :
+    LpcOps.extract Quirks.real Spec.oldRange fr c i = Spec.extract fr c i := by
+  have h : LpcOps.revSub Quirks.real = NV.Gen.C03.rangeFromEnd := by
+    funext a b; simp [LpcOps.revSub, Quirks.real]
+  unfold LpcOps.extract
+  rw [h, extractWith_sat _ _ _ _ hc hi, extractWith_exact_agrees _ _ _ hc]
+
+theorem extract_agrees_repaired (fr : Bool) (c i : Value R) (hc : SizeOk c) (hi : VI64 i) :
+    LpcOps.extract Quirks.none Spec.oldRange fr c i = Spec.extract fr c i := by
+  have h : LpcOps.revSub Quirks.none = NV.Gen.C03.rangeFromEnd := by
+    funext a b; simp [LpcOps.revSub, Quirks.none]
+  unfold LpcOps.extract
+  rw [h, extractWith_sat _ _ _ _ hc hi, extractWith_exact_agrees _ _ _ hc]
 
 
 theorem range_lvalue_agrees {α} (l v : List α) (fr tr : Bool) (i j : Int) (hs : (l.length : Int) + 1 < 2 ^ 31) :
@@ -195,29 +332,5 @@ theorem storeRange_agrees (fr tr : Bool) (c i j v : Value R)
     LpcOps.storeRange fr tr c i j v = Spec.storeRange fr tr c i j v := by
   cases c <;> cases i <;> cases j <;> cases v <;> simp only [LpcOps.storeRange, Spec.storeRange] <;>
     (try rfl) <;> rw [range_lvalue_agrees _ _ _ _ _ _ hc]
-
-/-- `size - i` of a `<i` bound does not overflow int64 -/
-def ExtractOk (c : Value R) (fr : Bool) (i : Value R) : Prop :=
-  match c, fr, i with
-  | .str s, true, .int n => I64 ((s.length : Int) - n)
-  | .buf b, true, .int n => I64 ((b.length : Int) - n)
-  | .arr l, true, .int n => I64 ((l.length : Int) - n)
-  | _, _, _ => True
-
-theorem extract_quirks_irrelevant (old fr : Bool) (c i : Value R)
-    (hi : ExtractOk c fr i) :
-    LpcOps.extract Quirks.real old fr c i = LpcOps.extract Quirks.none old fr c i := by
-  cases c <;> cases i <;> (try rfl) <;> cases fr <;>
-    simp only [LpcOps.extract, Quirks.real, Quirks.none, Bool.false_eq_true, ↓reduceIte] <;>
-    (simp only [ExtractOk] at hi; simp [wrap_id hi])
-
-/-- f_extract_range agrees with the reference for all int64 bounds outside the region of finding rev-range-wrap -/
-theorem extract_agrees_partial (fr : Bool) (c i : Value R) (hc : SizeOk c)
-    (hi : ExtractOk c fr i) :
-    LpcOps.extract Quirks.real Spec.oldRange fr c i = Spec.extract fr c i := by
-  rw [extract_quirks_irrelevant _ fr c i hi, extract_agrees_repaired fr c i hc]
-
-example : RevOk (R := Nat) (.str [1, 2, 3]) true (.int 2) := by
-  simp only [RevOk, I64]; simp
 
 end NV.C03
